@@ -941,8 +941,11 @@ class TypeBlocks(ContainerOperand):
         '''
         func = partial(np.round, decimals=decimals)
         # for now, we do not expose application of rounding on a subset of blocks, but is doable by setting the column_key
+        blocks = list(self._ufunc_blocks(column_key=NULL_SLICE, func=func))
+        for b in blocks:
+            b.flags.writeable = False
         return self.__class__(
-                blocks=list(self._ufunc_blocks(column_key=NULL_SLICE, func=func)),
+                blocks=blocks,
                 dtypes=self._dtypes.copy(), # list
                 index=self._index.copy(),
                 shape=self._shape
